@@ -96,14 +96,26 @@ Theorem set_timer_guard : forall r k t,
 Proof. exact set_timer_guard_full2. Qed.
 Print Assumptions set_timer_guard.
 
-(* For every handler (any function), every batch size, every interleaving of keyed events and watermark
-   messages: the Watermark field of every ProcessEventBatchRequest issued while the i-th incoming event is
-   handled is the specified composite of the watermark messages among the first i+1 events. *)
+(* For every handler (any function), every batch size, every interleaving of keyed events, watermark messages,
+   SourceComplete and redeploys of the live operator: the Watermark field of every ProcessEventBatchRequest
+   issued while the i-th incoming event is handled is the specified composite after the first i+1 events, i.e. the
+   minimum over the CURRENT deployment's runners of their latest report in this deployment (unreported = epoch). *)
 Theorem handler_told_composite : forall (h : handler) ids m ops i calls,
   nth_error (op_trace h m (op_new ids) ops) i = Some calls ->
-  forall c, In c calls -> c_told c = pb_new (spec_composite ids (oop_msgs (firstn (S i) ops))).
+  forall c, In c calls -> c_told c = pb_new (spec_at ids (firstn (S i) ops)).
 Proof. exact handler_told_composite_full. Qed.
 Print Assumptions handler_told_composite.
+
+(* what spec_at is: without a redeploy the composite of all watermark messages of the history; from a (re)deploy
+   until that deployment's first watermark message the epoch (nothing of the previous deployment survives);
+   in general spec_composite (characterised by composite_is_min) of the current deployment's runners / messages *)
+Theorem spec_at_meaning : forall ids0 pre,
+  ((forall ids, ~ In (ODeploy ids) pre) -> spec_at ids0 pre = spec_composite ids0 (oop_msgs pre)) /\
+  (forall a ids post, pre = a ++ ODeploy ids :: post ->
+     (forall s p, ~ In (OWm s p) post) -> (forall ids', ~ In (ODeploy ids') post) -> spec_at ids0 pre = epoch) /\
+  spec_at ids0 pre = spec_composite (fst (drun (ids0, []) pre)) (snd (drun (ids0, []) pre)).
+Proof. exact spec_at_full. Qed.
+Print Assumptions spec_at_meaning.
 
 (* a finished source runner keeps counting: SourceComplete changes neither the upstream table nor the composite
    (so composite_is_min / handler_told_composite above range over ALL runners' latest reports, finished or not:
@@ -115,12 +127,11 @@ Proof. exact source_complete_keeps_table. Qed.
 Print Assumptions source_complete_keeps_min.
 
 (* ... and every TimerExpired the handler ever receives is not later than the composite that held right after
-   one of the watermark messages handled so far (with batches > 1 a fired timer may be delivered later). *)
+   one of the watermark messages handled before (with batches > 1 a fired timer may be delivered later). *)
 Theorem no_timer_beyond_min_at_handler : forall (h : handler) ids m ops i calls,
   nth_error (op_trace h m (op_new ids) ops) i = Some calls ->
   forall c, In c calls -> forall k t, In (HT k t) (c_events c) ->
-  exists n, (0 < n <= length (oop_msgs (firstn (S i) ops)))%nat /\
-            t <= spec_composite ids (firstn n (oop_msgs (firstn (S i) ops))).
+  exists a s p b, firstn (S i) ops = a ++ OWm s p :: b /\ t <= spec_at ids (a ++ [OWm s p]).
 Proof. exact no_timer_beyond_min_at_handler_full. Qed.
 Print Assumptions no_timer_beyond_min_at_handler.
 
@@ -149,7 +160,7 @@ Proof. vm_compute. reflexivity. Qed.
 Lemma handler_told_before_fix_refuted_w :
   exists ids ops calls c,
     nth_error (op_trace (fun _ _ => []) 1 {| o_reg := reg_new_before_fix ids; o_batch := [] |} ops) 0 = Some calls /\
-    In c calls /\ c_told c <> pb_new (spec_composite ids (oop_msgs (firstn 1 ops))).
+    In c calls /\ c_told c <> pb_new (spec_at ids (firstn 1 ops)).
 Proof. exact handler_told_before_fix_refuted. Qed.
 
 (* a runner finishes with the lowest watermark: it still holds the minimum back *)
@@ -157,4 +168,11 @@ Example complete_example :
   map (map c_told) (op_trace (fun _ evs => map (fun e => match e with HK _ k ts => (k, ts) | HT k _ => (k, []) end) evs) 1 (op_new [1%N; 2%N])
     [OWm 1 (Some (5, 0)); OWm 2 (Some (9, 0)); OEv 1 1 7 [Some (7, 0)]; OComplete 1; OWm 2 (Some (20, 0)); OEv 2 2 7 []])
   = [[]; []; [(5, 0)]; []; []; [(5, 0)]].
+Proof. vm_compute. reflexivity. Qed.
+
+(* a redeploy of the live operator starts from the epoch again, whatever the previous deployment had reached *)
+Example redeploy_example :
+  map (map c_told) (op_trace (fun _ evs => map (fun e => match e with HK _ k ts => (k, ts) | HT k _ => (k, []) end) evs) 1 (op_new [1%N])
+    [OWm 1 (Some (50, 0)); OEv 1 1 7 []; ODeploy [1%N]; OEv 1 2 7 [Some (20, 0)]; OWm 1 (Some (30, 0)); OEv 1 3 7 []])
+  = [[]; [(50, 0)]; []; [(0, 0)]; [(30, 0)]; [(30, 0)]].
 Proof. vm_compute. reflexivity. Qed.
